@@ -124,6 +124,8 @@ def classes(ident, sats, sigs, cells):
         cls.append("cell-with-undefined-signal")
     if len(cells) >= 10:
         cls.append("cells>=10")
+    if len(sats) * len(sigs) == 64:
+        cls.append("cell-mask-exactly-64-bits")
     nt = (len(cells) >= 1 and (len(sats) >= 2 or len(sigs) >= 2)) or odd
     return nt, cls
 
@@ -172,6 +174,34 @@ def e_single(tier, shard, nshards):
                     yield {"ident": ident, "payload": w.payload(0).hex(), "labelmsm": 1 + (k & 1)}
 
 
+def e_full64(tier, shard, nshards):
+    """cell masks of exactly 64 bits (the largest the standard allows): every factorisation NSat x NSig = 64"""
+    k = 0
+    for c in range(7):
+        for lvl in (1, 4, 7) if tier == "quick" else range(1, 8):
+            ident = str(1070 + 10 * c + lvl)
+            for nsat, nsig in ((64, 1), (32, 2), (16, 4), (8, 8), (4, 16), (2, 32)):
+                for cm in ("full", "alt"):
+                    k += 1
+                    if k % nshards != shard:
+                        continue
+                    satmask = ((1 << nsat) - 1) << (64 - nsat) if nsat < 64 else (1 << 64) - 1
+                    if nsat == 8:
+                        satmask = 0x8040201008040201
+                    sigmask = ((1 << nsig) - 1) << (32 - nsig) if nsig < 32 else (1 << 32) - 1
+                    if nsig == 4:
+                        sigmask = 0x40201008
+                    cell = (1 << 64) - 1 if cm == "full" else 0xA5A5A5A5A5A5A5A5
+                    fixed = {"DF394": satmask, "DF395": sigmask, "DF396": cell}
+                    w = model.Walk(ident, lambda key, wd, w, idx: fixed[key] if key in fixed else (int(ident) if key == "DF002" else ((1 << wd) - 1 if wd and key not in ("DF394", "DF395", "DF396") and idx else 0))).run()
+                    yield {"ident": ident, "payload": w.payload(0).hex(), "labelmsm": 1 + (k & 1)}
+
+
+def e_all(tier, shard, nshards):
+    yield from e_single(tier, shard, nshards)
+    yield from e_full64(tier, shard, nshards)
+
+
 def _short(c):
     c = dict(c)
     if len(c.get("payload", "")) > 160:
@@ -184,9 +214,9 @@ SUBS = [
         "mask_decoding",
         o_masks,
         plan=plan_masks,
-        enum=e_single,
+        enum=e_all,
         rule="see property rule; single-bit satellite x signal masks enumerated per constellation",
-        need={"empty-sat-mask": 1, "empty-sig-mask": 1, "sat-id-64": 1, "sig-id-32": 1, "reserved-or-out-of-range-id": 1, "cell-with-undefined-signal": 1, "cells>=10": 1},
+        need={"empty-sat-mask": 1, "empty-sig-mask": 1, "sat-id-64": 1, "sig-id-32": 1, "reserved-or-out-of-range-id": 1, "cell-with-undefined-signal": 1, "cells>=10": 1, "cell-mask-exactly-64-bits": 1},
         sample=_short,
     ),
 ]
